@@ -558,7 +558,9 @@ def run(tier: str) -> int:
     thorough = tier == "thorough"
     o.rule = (
         "G: one case per program of the grammar body x wrapper list enumerated by TLC (distinct by body and wrapper "
-        "list; every program is non-trivial: it is executed through #invoke with a 1 s limit), plus histories of "
+        "list; every program is non-trivial: it is executed through #invoke with a 1 s limit; the wrapper kinds "
+        "ninv/ninvt/ninvx and the body invloop put the non-terminating code into a NESTED invocation reached through "
+        "frame:preprocess / expandTemplate / extensionTag), plus histories of "
         "several programs on one context; each followed by benign invocations compared with a fresh context. "
         "V: one recorded event trace per executed program."
     )
@@ -805,5 +807,21 @@ def selftest() -> int:
         b2 = tlc_traces(None, bad, d, "-bad")
         print("recorded trace: rejected =", len(b1), "; corrupted trace: rejected =", len(b2))
         ok &= not b1 and len(b2) == 1
+        # (3) where the code runs: the endless loop in a NESTED invocation must abort the enclosing module; a trace in
+        # which the nested timeout comes back in-band and the module returns is no behaviour of the demanded design
+        # (it is one of the deviation NestedTimeoutInBand), and that outcome is reported
+        cn = cases["tight:ninv"]
+        runn = run_histories([[cn]], d / "n")[0]["runs"][0]
+        print("tight loop in a nested invocation: observed", runn["cls"], "demanded", cn["demand"])
+        ok &= obs_class(runn["cls"]) == cn["demand"]
+        fake = [{"e": "enter", "i": 1, "x": "ninv"}, {"e": "nret", "i": 1, "x": "timeout"}, {"e": "done", "i": 0, "x": "returned"}]
+        b3 = tlc_traces(None, [{"body": "tight", "wrap": ["ninv"], "dev": [], "events": fake, "complete": True}], d, "-nest-ideal")
+        b4 = tlc_traces(None, [{"body": "tight", "wrap": ["ninv"], "dev": ["NestedTimeoutInBand"], "events": fake, "complete": True}], d, "-nest-dev")
+        print("in-band nested timeout: rejected under the demanded design =", len(b3), "; accepted under NestedTimeoutInBand =", not b4)
+        ok &= len(b3) == 1 and not b4
+        o3 = Outcome(PID, "quick")
+        judge(o3, cn, dict(runn, cls="returned", out="done", events=[["enter", "1", "ninv"], ["nret", "1", "timeout"]]), None, None, "selftest")
+        print("module returned after an in-band nested timeout:", len(o3.violations), "violation(s)")
+        ok &= len(o3.violations) == 1
     print("selftest", "ok" if ok else "FAILED")
     return 0 if ok else 1
